@@ -82,7 +82,12 @@ Check(tr, e) ==
              got == IF tr.chk.read THEN e.recs ELSE [n \in 1..Len(e.recs) |-> ScopeProj(e.recs[n])]
              d == FirstDiff(exp, got, 1)
              sc == IF e.selfcheck THEN ReadFile(st.out, tr.cmap) ELSE [status |-> "done", recs |-> st.recs] IN
-         IF sc.status # "unspec" /\ (sc.status # "done" \/ sc.recs # st.recs) THEN [ok |-> FALSE, why |-> "SELFCHECK-spec-reader-vs-spec-writer", st |-> st]
+         IF \E n \in 1..Len(tr.ev) : \/ /\ tr.ev[n].k = "call" /\ tr.ev[n].accepted /\ tr.ev[n].c.op \in {"change", "file"}
+                                          /\ tr.ev[n].c.enc.given /\ tr.ev[n].c.enc.codec.fam = "unknown"
+                                       \/ /\ tr.ev[n].k = "init" /\ tr.ev[n].enc.given /\ tr.ev[n].enc.codec.fam = "unknown"
+         THEN [ok |-> TRUE, why |-> "", st |-> st]     \* a container declares a name that is no codec: reading it back is
+                                                      \* outside C01's quantifier (Reader.tla: unspec)
+         ELSE IF sc.status # "unspec" /\ (sc.status # "done" \/ sc.recs # st.recs) THEN [ok |-> FALSE, why |-> "SELFCHECK-spec-reader-vs-spec-writer", st |-> st]
          ELSE IF e.end # "done" THEN [ok |-> FALSE, why |-> "reader-did-not-complete:" \o e.end, st |-> st]
          ELSE IF d = 0 THEN [ok |-> TRUE, why |-> "", st |-> st]
          ELSE IF d > Len(exp) THEN [ok |-> FALSE, why |-> "extra-record", st |-> st]
